@@ -431,7 +431,7 @@ def full_stack_suite(ctx, count, batch=False):
 
 # ---- the whole of `_parsing.run` inside the model: Lean rule functions + lazy cache + search -----
 
-def lazy_case(rng, lang, m, with_seen, with_beta, dup=False, chunking=None):
+def lazy_case(rng, lang, m, with_seen, with_beta, dup=False, chunking=None, long_doc=False, fail_some=False):
     """one call of the real depccg.parsing.run (real rule functions of `lang`, m sentences sharing
     category table and cache) and the protocol line that makes the Lean model do the same thing
     *by itself*: its own En / Ja rule functions, its own callbacks, search and finaliser"""
@@ -449,6 +449,15 @@ def lazy_case(rng, lang, m, with_seen, with_beta, dup=False, chunking=None):
         base.beta = rng.choice([0.5, 0.1, 0.001, 1.0, 2.0])
         base.pruning = rng.choice([1, 2, 3, 50, 0])
     max_length = rng.choice([250, 250, 3])
+    if long_doc:
+        max_length = rng.choice([2, 3])        # a long document in which several sentences are over-long
+    if fail_some and len(sents) >= 2:
+        # the first sentence of the call has no parse (its gold root category is not an allowed root) and the
+        # call asks for several parses: the later sentences must get theirs all the same
+        root_cats = list(root_cats[1:]) or list(root_cats)
+        base.nbest = rng.choice([2, 3, 4])
+        for p, _ in sents:
+            p.nbest = base.nbest
     if dup:
         # the same category named by two columns of the tag matrix: `run` must reject the call
         j = rng.randrange(len(cats))
@@ -494,7 +503,7 @@ def lazy_case(rng, lang, m, with_seen, with_beta, dup=False, chunking=None):
             parts.append('0')
     line = ' '.join(' '.join(parts).split())
     desc = dict(lang=lang, seen=with_seen, sentences=[p.to_json() for p, _ in sents], categories=[str(c) for c in cats],
-                roots=[str(c) for c in root_cats], max_length=max_length, duplicate_category=dup, chunking=chunking)
+                roots=[str(c) for c in root_cats], max_length=max_length, duplicate_category=dup, chunking=chunking, fail_some=fail_some)
     return desc, real_pops, res, line, (sents, cats, root_cats, bfun, ufun, max_length)
 
 
@@ -600,10 +609,14 @@ def lazy_suite(ctx, count, batch=False):
         tries += 1
         try:
             m = rng.randint(2, 4) if batch else 1
+            long_doc = (tries % 9 == 7)
+            if long_doc:
+                m = rng.randint(9, 14)
             # every sixth batch goes through the chunking of depccg.parsing.run and a real worker pool
             chunking = (rng.randint(1, m - 1), rng.randint(1, 3)) if batch and tries % 6 == 4 else None
             c = lazy_case(rng, 'ja' if tries % 3 == 0 else 'en', m,
-                          with_seen=(tries % 4 == 1), with_beta=(tries % 5 == 2), dup=(tries % 8 == 5), chunking=chunking)
+                          with_seen=(tries % 4 == 1), with_beta=(tries % 5 == 2), dup=(tries % 8 == 5), chunking=chunking,
+                          long_doc=long_doc, fail_some=(batch and tries % 4 == 2))
         except Exception as e:
             ctx.fail(f'depccg.parsing.run raised {type(e).__name__}: {e}', {'suite': 'lazy'},
                      fingerprint=['lazy-raise', type(e).__name__])
@@ -627,6 +640,24 @@ def lazy_suite(ctx, count, batch=False):
                 ctx.disagree('lazyrun', desc, out[:200], 'RuntimeError')
             continue
         why = lazy_oracle(*orc, res)
+        if why is None and len(orc[0]) >= 2 and not desc['duplicate_category']:
+            # C11 / C10 on the real code: a sentence of the call against the same sentence parsed alone
+            sents_, cats_, roots_, bf_, uf_, ml_ = orc
+            for si in (range(len(sents_)) if desc.get('fail_some') else rng.sample(range(len(sents_)), min(2, len(sents_)))):
+                p_, toks_ = sents_[si]
+                try:
+                    alone = native.setup()['parsing'].run([toks_], [G.scoring(p_)], list(cats_), list(roots_), bf_, uf_,
+                                                          unary_penalty=p_.penalty / S.SCALE, beta=p_.beta, use_beta=p_.use_beta,
+                                                          pruning_size=p_.pruning, nbest=p_.nbest, max_step=p_.max_step, max_length=ml_,
+                                                          processes=1, max_chunk_size=1000)
+                except Exception as e:
+                    why = f'sentence {si} parsed alone raised {type(e).__name__}'
+                    break
+                if G.canon_results(alone)[0] != G.canon_results([res[si]])[0]:
+                    a, b = G.canon_results(alone)[0], G.canon_results([res[si]])[0]
+                    why = (f'sentence {si}: in the call it yields {len(b)} result(s) {str(b)[:200]}, parsed alone {len(a)} result(s) '
+                           f'{str(a)[:200]}')
+                    break
         if why is None and desc['duplicate_category']:
             why = 'a category list naming one category twice was not rejected'
         if why:
